@@ -37,6 +37,17 @@ def worker(args):
             if tw.obs[-1][0] != 'ok':
                 sub.count('twin_view_failed'); return
             expected = tw.obs[-1][1]
+            lost = tw.facts_violated(expected)
+            if lost:
+                def still(h):
+                    t2 = env.run(h[:-1] + [('view',)], fixture, record_sql=False)
+                    return (not t2.skipped) and t2.obs[-1][0] == 'ok' and bool(t2.facts_violated(t2.obs[-1][1]))
+                small = sx.shrink(hist, still)
+                t2 = env.run(small[:-1] + [('view',)], fixture, record_sql=False)
+                lost2 = t2.facts_violated(t2.obs[-1][1]) if t2.obs[-1][0] == 'ok' else lost
+                sub.violation('%s|%s|session-lost-a-modification|%s' % (name.split('-')[0], sx.kinds(small), ','.join(lost2 or lost)),
+                              dict(model=name, fixture=fixture, history=small, facts=sorted(map(repr, t2.facts.items())), view=t2.obs[-1]),
+                              'after %r the session no longer shows what the program did: %s' % (small, lost2 or lost))
             got = env.decode_dump(after, x.pk2label)
             if got != expected:
                 small = sx.shrink(hist, lambda h: mismatch(env, fixture, h) is not None)
